@@ -3,6 +3,7 @@ CONSTANTS
   MinN = 6
   MaxN = 7
   Radius = 2
+  Thick = {0, 12}
 INVARIANT TypeOK
 INVARIANT TargetsAtWall
 INVARIANT OtherEndKept
